@@ -49,6 +49,11 @@ from google.rpc import code_pb2
 from google.rpc import status_pb2
 
 
+def _error_text(e: Exception) -> str:
+  """Text of an exception as a valid proto string (no lone surrogates)."""
+  return str(e).encode('utf-8', 'backslashreplace').decode('utf-8')
+
+
 def _get_current_time() -> timestamp_pb2.Timestamp:
   now = timestamp_pb2.Timestamp()
   now.GetCurrentTime()
@@ -400,7 +405,7 @@ class VizierServicer(vizier_service_pb2_grpc.VizierServiceServicer):
       # server, anything else (e.g. RuntimeError) from an in-process servicer.
       except Exception as e:  # pylint: disable=broad-except
         output_op.error.CopyFrom(
-            status_pb2.Status(code=code_pb2.Code.INTERNAL, message=str(e))
+            status_pb2.Status(code=code_pb2.Code.INTERNAL, message=_error_text(e))
         )
         logging.exception(
             'Failed to request trials from Pythia for request: %s', request
@@ -434,9 +439,9 @@ class VizierServicer(vizier_service_pb2_grpc.VizierServiceServicer):
                   suggest_decision.metadata.on_trials
               ),
           )
-      except KeyError as e:
+      except (KeyError, ValueError) as e:
         output_op.error.CopyFrom(
-            status_pb2.Status(code=code_pb2.Code.INTERNAL, message=str(e))
+            status_pb2.Status(code=code_pb2.Code.INTERNAL, message=_error_text(e))
         )
         logging.exception(
             'Failed to write metadata update to datastore: %s',
@@ -772,10 +777,10 @@ class VizierServicer(vizier_service_pb2_grpc.VizierServiceServicer):
         )
 
       # Send request to Pythia.
-      temp_pythia_service = self._select_pythia_service(
-          study_config.pythia_endpoint
-      )
       try:
+        temp_pythia_service = self._select_pythia_service(
+            study_config.pythia_endpoint
+        )
         early_stopping_decisions_proto = temp_pythia_service.EarlyStop(
             early_stop_request_proto
         )
@@ -805,7 +810,7 @@ class VizierServicer(vizier_service_pb2_grpc.VizierServiceServicer):
                   early_stopping_decisions.metadata.on_trials
               ),
           )
-      except KeyError as e:
+      except (KeyError, ValueError) as e:
         # The metadata cannot be stored (e.g. it names a missing trial). Do not
         # leave the operation ACTIVE forever: later checks would be answered
         # from it without ever reaching Pythia again.
